@@ -149,6 +149,10 @@ func genC13Base(t *rapid.T) World {
 	leaf.Subject, leaf.SubjectSep = genSubject(t, "subj", 1, 4)
 	if rapid.Bool().Draw(t, "serial") {
 		leaf.Serial = core.Int64P(rapid.Int64Range(1, 1<<40).Draw(t, "serialv"))
+		if rapid.IntRange(0, 3).Draw(t, "serial-huge") == 0 {
+			// neighbours above 2^53 differ as integers but not as float64
+			leaf.Serial = core.Int64P(rapid.SampledFrom([]int64{1<<53 + 1, 1<<53 + 2, 1<<62 + 1, 1<<63 - 2, 9007199254740993}).Draw(t, "serial-hugev"))
+		}
 	}
 	if rapid.IntRange(0, 3).Draw(t, "uid") == 0 {
 		leaf.SubjectUID = core.Bin(genRawBytes(t, "uidb", 40))
@@ -176,6 +180,12 @@ func genC13Base(t *rapid.T) World {
 		p := core.Profile{File: "profiles/leafprofile.yaml", Name: "leaf profile"}
 		if rapid.Bool().Draw(t, "pvalidity") {
 			p.Validity = &core.Validity{Duration: rapid.SampledFrom([]string{"1y", "2y6m", "400d"}).Draw(t, "pdur")}
+			switch rapid.IntRange(0, 3).Draw(t, "pvalidity-shape") {
+			case 0:
+				p.Validity.From = "2020-05-06"
+			case 1:
+				p.Validity = &core.Validity{From: "2020-05-06", Until: "2035-07-08"}
+			}
 		}
 		p.Extensions = genProfileExts(t, "px", leaf.Extensions, core.AllKinds, false)
 		// keep the base runnable: no content-less leftovers
@@ -194,6 +204,11 @@ func genC13Base(t *rapid.T) World {
 		leaf.Profile = p.Name
 	}
 	w.Ents = append(w.Ents, leaf)
+	if rapid.IntRange(0, 5).Draw(t, "csr-leaf") == 0 {
+		// the leaf is request-based: its artifact holds a certificate request and never a private key
+		_, csr := goCertAndCSR(t)
+		w.Files = map[string][]byte{core.PemPath(leaf.File): core.PemBlock("CERTIFICATE REQUEST", csr)}
+	}
 	return w
 }
 
@@ -365,7 +380,7 @@ func applyC13(t *rapid.T, base World, kind string) (World, bool) {
 		case 5:
 			l.Manip.TbsPubAlg = "1.2.5." + fmt.Sprint(rapid.IntRange(1, 999).Draw(t, "mpa"))
 		case 0:
-			v := int64(5)
+			v := int64(1<<53 + 1)
 			if l.Manip.Version != nil {
 				v = *l.Manip.Version + 1
 			}
@@ -381,10 +396,21 @@ func applyC13(t *rapid.T, base World, kind string) (World, bool) {
 		if prof == nil || !l.Validity.Empty() {
 			return w, false
 		}
-		if prof.Validity.Empty() {
+		switch {
+		case prof.Validity.Empty():
 			prof.Validity = &core.Validity{Duration: "11y"}
-		} else {
-			prof.Validity = &core.Validity{Duration: "13y"}
+		case prof.Validity.From != "" && rapid.Bool().Draw(t, "pv-from"):
+			v := *prof.Validity
+			v.From = "2021-06-07"
+			prof.Validity = &v
+		case prof.Validity.Until != "":
+			v := *prof.Validity
+			v.Until = "2036-08-09"
+			prof.Validity = &v
+		default:
+			v := *prof.Validity
+			v.Duration = "13y"
+			prof.Validity = &v
 		}
 	case "edit:profile-ext-edit", "edit:profile-ext-flags":
 		if prof == nil || len(prof.Extensions) == 0 {
